@@ -74,7 +74,7 @@ func (x *Exec) chanEvent(fr *Frame, st *State, what string, c, v *Term, ins ssa.
 		if m.Callee != "chan:"+what {
 			continue
 		}
-		env := &SpecEnv{x: x, vars: map[string]SVal{}, st: st, old: fr.top.entry, pkg: fr.top.fn.Pkg.Pkg, lets: map[string]*Expr{}, free: x.freeOf[con], fr: fr.top}
+		env := &SpecEnv{x: x, vars: map[string]SVal{}, st: st, old: fr.top.entry, pkg: fnTypesPkg(fr.top.fn), lets: map[string]*Expr{}, free: x.freeOf[con], fr: fr.top}
 		for i, p := range con.Params {
 			if i < len(fr.top.params) && i < len(fr.top.fn.Params) {
 				env.vars[p] = SVal{T: fr.top.params[i].T, GT: fr.top.fn.Params[i].Type()}
@@ -317,7 +317,7 @@ func (x *Exec) spawn(fr *Frame, st *State, ins ssa.Instruction, fn *ssa.Function
 			cargs = append(cargs, x.get(sfr, sub, a))
 		}
 		key := funcKey(callee)
-		env := x.specEnvFor(con, callee.Signature, callee.Pkg.Pkg, cargs, sub, sub)
+		env := x.specEnvFor(con, callee.Signature, fnTypesPkg(callee), cargs, sub, sub)
 		for i, r := range con.Requires {
 			lab := r.Label
 			if lab == "" {
@@ -345,7 +345,7 @@ func (x *Exec) spawn(fr *Frame, st *State, ins ssa.Instruction, fn *ssa.Function
 		sub := st.clone()
 		sub.pc = And(st.pc, ran)
 		key := funcKey(fn)
-		env := x.specEnvFor(con, fn.Signature, fn.Pkg.Pkg, args, sub, sub)
+		env := x.specEnvFor(con, fn.Signature, fnTypesPkg(fn), args, sub, sub)
 		fb := map[string]freeBinding{}
 		for i, fv := range fn.FreeVars {
 			if pt, ok := fv.Type().Underlying().(*types.Pointer); ok && clo != nil && i < len(clo.Binds) {
